@@ -15,6 +15,9 @@ def run_one(name, patch, checks, tier):
     try:
         for d in ('src', 'include'):
             shutil.copytree(os.path.join('/repo', d), os.path.join(scratch, d))
+        for f in ('build.rs', 'Cargo.toml'):  # read by the C20 check
+            if os.path.exists(os.path.join('/repo', f)):
+                shutil.copy2(os.path.join('/repo', f), os.path.join(scratch, f))
         r = subprocess.run(['patch', '-p1', '-s', '-d', scratch, '-i', os.path.abspath(patch)], capture_output=True, text=True)
         if r.returncode:
             return {c: 'PATCH-FAILED ' + (r.stdout + r.stderr)[:200] for c in checks}
